@@ -4,27 +4,41 @@ Differential monitor: every call template of vf/gen/npcatalog.py is executed twi
 plain ndarrays (NumPy itself is the oracle) and once with unyt arrays; results (recursively through tuples/lists/dicts),
 out= buffers and every operand after the call must agree in nesting, shape, dtype kind and exact values (NaN == NaN).
 A tap on unyt_array.__array_function__ records which functions were really dispatched through unyt.
+
+Two further workload dimensions (same oracle):
+* one operand bare in ANY call form - every catalogue form (keyword / positional / custom, not only the base form) with at
+  least two unit-carrying operands is re-run with one drawn operand handed over bare, spelled as ndarray, nested list or scalar;
+* the two-operand decision-boundary family (vf/gen/c06_boundary.py) - 71 two-operand functions/methods/operators with data
+  and rarely passed parameters AT the decision boundary of the function (isclose's asymmetric band, ties, values on bin edges,
+  crossing clip bounds, exact multiples, half-way ranks, unequal lengths ...) x both operand orders x operand kind per position
+  {quantity, bare ndarray, bare list, bare scalar}; NumPy alone is also asked whether swapping the operands / dropping the
+  parameters changes its answer, and a decision class that was never order-sensitive makes the run INCONCLUSIVE.
 """
 import inspect
 import warnings
 import numpy as np
 from vf import core
 from vf.gen import npcatalog as nc
+from vf.gen import c06_boundary as cb
 from .common import chunks
 
 RULE = ("one evaluation = one call template (function or ndarray method/operator x call form: base, one optional parameter as "
         "keyword, all positional, all keyword, out=, out= bare buffer, one operand bare, custom forms) x shape class x dtype x "
         "data draw (incl. the memory layout of operands and out= buffers: C/F owners, strided, reversed, transposed views) x unit family, run on bare ndarrays and on unyt arrays carrying one unit per dimension slot, compared in "
-        "nesting, shape, dtype kind, exact values, out= buffer and operands after the call; a refusal (unyt raises) is counted "
-        "but is not a distinct cell; calls NumPy itself refuses are discarded. distinct = (template id, shape class, dtype, family)")
+        "nesting, shape, dtype kind, exact values, out= buffer and operands after the call; every form with two or more unit-carrying operands is run once more with "
+        "one drawn operand bare (spelled ndarray / list / scalar); the decision-boundary family adds (two-operand template x parameter set at the decision boundary) x "
+        "operand order {xy, yx} x operand kind pattern {Q,Q / Q,bare / bare,Q with bare spelled ndarray, list, scalar}; a refusal (unyt raises) is counted "
+        "but is not a distinct cell; calls NumPy itself refuses are discarded. distinct = (template id, shape class, dtype, family[, bare operand and spelling | operand order, operand kind pattern])")
 ASSUMPTIONS = (
     "NumPy applied to the stripped data (np.asarray of every unyt operand, fresh copies, out= replaced by a bare buffer) is the oracle",
     "all operands of one dimension slot carry the same unit (A->m, B->s, 1->dimensionless; further families: all dimensionless, A->K; thorough adds g/km, kg*m/s**2 and 1/s, degC, and 0-d operands as unyt_array instead of unyt_quantity), so no conversion factor is involved",
     "values are compared with NaN equal to NaN and -0.0 equal to 0.0; dtype must agree in kind, kinds being bool / integer (signed or unsigned) / float / complex as in the quantifier (exact dtype differences are notes)",
     "the statement demands the same dtype kind, not width: where a float narrower than float64 is involved (float32 data, or result widths differ) unyt may carry intermediate steps in a wider float; values are then compared to within 64 eps of the narrowest float involved times the largest magnitude among operands and results; float64/complex128/integer cases are compared exactly",
-    "integer out= / in-place targets and integer operands combined with a bare (unit-less, hence differently-united) operand are promoted to float by unyt's documented no-integer-truncation policy (C17): i->f with equal values is a note, not a violation; only for templates with out=, mutators and one-operand-bare forms; there, a float result that equals NumPy's integer result modulo 2**bits (NumPy wrapped around, e.g. uint8 0 - 8 = 248 vs -8.0) is the same computation without the wrap-around and is a note as well",
+    "integer out= / in-place targets and integer operands combined with a bare (unit-less, hence differently-united) operand are promoted to float by unyt's documented no-integer-truncation policy (C17): i->f with equal values is a note, not a violation; only for templates with out=, mutators and one-operand-bare forms; there, a float result that equals NumPy's integer result modulo 2**bits (NumPy wrapped around, e.g. uint8 0 - 8 = 248 vs -8.0) is the same computation without the wrap-around and is a note as well; likewise a result in a WIDER integer type that equals NumPy's modulo 2**bits: unyt turns a bare Python number into a default-width array before the ufunc, so NumPy's weak-scalar rule (uint8 3 - 4 = 255) becomes int64 -1 - the width is C17's subject, the kind (integer) and the number modulo the wrap agree",
     "a difference that NumPy itself shows between a plain ndarray and a unit-less ndarray subclass (e.g. nanmin/nanmax skip the fmin.reduce fast path for subclasses) is NumPy's, not unyt's: excused when unyt agrees with NumPy run on a trivial subclass view, and noted",
-    "np.array_equal/array_equiv with one bare operand answer False by design (a bare array is dimensionless, not metres): that form is not generated",
+    "np.array_equal/array_equiv with one bare operand answer False by design (a bare array is dimensionless, not metres): that form is not generated (also not by the any-form bare dimension; the boundary family drives them with two quantities only, in both orders)",
+    "where an operand is handed over bare as a nested list or a Python scalar, the oracle is NumPy called with the same list / scalar (not with an ndarray of the generated dtype): what NumPy infers from Python objects is then the same on both sides; the receiver of an ndarray method or operator is never spelled as list/scalar (that would not be an ndarray method call)",
+    "boundary family: 'the answer depends on the operand order / on the optional parameters' is measured on NumPy alone with the bare data (f(x, y) vs f(y, x), with vs without the parameters) and is used only as a workload-quality gate, never as a verdict; symmetric decision classes (== / !=, union1d, setxor1d) are exempt from the order gate",
     "a tuple returned where NumPy returns a namedtuple/list of the same length is the same nesting (sequence-ness is compared, not the class); recorded as note",
     "strings (array2string/array_repr/array_str/str/repr/format) intentionally mention the unit: only 'is a string' is judged; bytes/text written to files are compared exactly",
     "functions unyt declares unsupported may raise (allowed by 'either raises'); when they return they are judged like any other",
@@ -40,13 +54,19 @@ FAMILIES_THOROUGH = FAMILIES_QUICK + [("plain2", {"A": "g", "B": "km", "1": ""})
                                       ("offset", {"A": "degC", "B": "s", "1": ""}), ("plain-0d-array", {"A": "m", "B": "s", "1": ""})]
 
 
+NO_BARE_FORM = {"numpy.array_equal", "numpy.array_equiv"}      # see ASSUMPTIONS: a bare operand answers False by design
 LAYOUT_DRAW = ("C", "C", "C", "F", "strided", "reversed", "T")     # memory layout of every operand/out buffer, drawn per case
 
 
 def batches(tier, seed):
     tids = [t.tid for t in nc.catalog()]
     n = -(-len(tids) // (16 if tier == "quick" else 48))
-    return [("templates/%d" % i, {"tids": c, "seed": seed, "tier": tier}) for i, c in enumerate(chunks(tids, n))]
+    out = [("templates/%d" % i, {"tids": c, "seed": seed, "tier": tier}) for i, c in enumerate(chunks(tids, n))]
+    btids = [t.tid for t in cb.templates()]
+    # interleave so that every batch holds a mix of cheap and expensive decision classes
+    nb = 16 if tier == "quick" else 32
+    out += [("boundary/%d" % i, {"tids": btids[i::nb], "seed": seed, "tier": tier, "boundary": True}) for i in range(nb) if btids[i::nb]]
+    return out
 
 
 # ------------------------------------------------------------------------------------------------ comparison
@@ -118,7 +138,7 @@ def compare(u, b, strict_text, notes, path="r", promo_ok=False, narrow=None):
                 notes.add("integer-target-or-mixed-operand-promoted-to-float")
             else:
                 return ("dtype-kind", path, f"dtype {ua.dtype} vs NumPy {ba.dtype}")
-        if promo_ok and ba.dtype.kind in "iu" and ua.dtype.kind == "f" and ua.shape == ba.shape:
+        if promo_ok and ba.dtype.kind in "iu" and ua.shape == ba.shape and (ua.dtype.kind == "f" or (ua.dtype.kind in "iu" and ua.dtype.itemsize > ba.dtype.itemsize)):
             # NumPy's integer arithmetic wraps around (uint8 0 - 8 = 248) where the promoted float computation does not
             # (-8.0): equal modulo 2**bits is the same computation without the wrap-around; C17 demands the promotion
             with np.errstate(all="ignore"):
@@ -127,7 +147,7 @@ def compare(u, b, strict_text, notes, path="r", promo_ok=False, narrow=None):
                                not np.array_equal(uf, ba.astype("f8")) and
                                np.all(np.mod(uf - ba.astype("f8"), float(2 ** (8 * ba.dtype.itemsize))) == 0))
             if wrapped:
-                notes.add("numpy-integer-wraparound-avoided-by-float-promotion")
+                notes.add("numpy-integer-wraparound-avoided-by-float-promotion" if ua.dtype.kind == "f" else "numpy-integer-wraparound-avoided-by-wider-integer")
                 return None
         if ua.dtype != ba.dtype:
             notes.add(f"dtype-width:{ua.dtype}!={ba.dtype}")
@@ -188,6 +208,105 @@ def _optional_names(t, call):
     return s
 
 
+def _judge(rec, t, realize, rb, bl, wraps, seen, strict_text, promo, narrow, keyfn, cellfn, layout, case, tally=None, sample=None):
+    """one case (NumPy's observed result rb and operands-after-call bl are given) run with unit-carrying operands in every unit
+    family and judged against NumPy.  realize(wrap) -> (args, kwargs, leaves); keyfn(family_specific, fam, where, kind) -> key;
+    cellfn(fam) -> coverage cell; tally(name) counts per-dimension sub-monitor evaluations.  Returns {fam: "ok"|"refused"|(where, kind, key)}"""
+    out = {}
+    plain_failed = None
+    for fam, wrap in wraps.items():
+        ua, uk, ul = realize(wrap)
+        n0 = seen.get(t.target, 0) if t.kind == "function" else 0
+        try:
+            ru = t.observe(ua, uk, t.invoke(ua, uk))
+        except Exception as e:
+            rec.ok(None)
+            rec.count("refused")
+            rec.count("refused:" + ("unsupported" if "unsupported" in t.tags else type(e).__name__))
+            rec.reach("ref:" + t.func_name)
+            if tally:
+                tally("refused")
+            out[fam] = "refused"
+            continue
+        if t.kind == "function":
+            if seen.get(t.target, 0) > n0:
+                rec.count("dispatched-through-__array_function__")
+                rec.reach("dsp:" + t.func_name)
+            else:
+                rec.count("not-dispatched")
+        notes = set()
+        d = compare(ru, rb, strict_text, notes, promo_ok=promo, narrow=narrow)
+        where = "result"
+        if d is None:
+            for (p, q, ou), (_, _, ob) in zip(ul, bl):
+                is_out = q.role == "out"
+                rec.count("out-buffer-compared" if is_out else "operand-after-call-compared")
+                d = compare(_asarr(ou), _asarr(ob), True, notes, p, promo, narrow)
+                if d:
+                    where = "out-buffer" if is_out else "operand-after-call"
+                    break
+        rec.count("compared:" + t.kind)
+        rec.count("compared:layout-" + layout)
+        if "mutator" in t.tags:
+            rec.count("compared:mutator-templates")
+        if tally:
+            tally("compared")
+        for nt in notes:
+            rec.note(nt)
+        rec.reach("cmp:" + t.func_name)
+        if d is not None:
+            # second reference: NumPy on a unit-less ndarray subclass. NumPy itself takes other code paths for
+            # subclasses (e.g. nanmin/nanmax skip the fmin.reduce fast path); such a difference is not unyt's.
+            try:
+                sa, sk, sl = realize(lambda data, dim, q: data.view(_PlainSub))
+                rs = t.observe(sa, sk, t.invoke(sa, sk))
+                if compare(ru, rs, strict_text, set(), promo_ok=promo, narrow=narrow) is None and all(
+                        compare(_asarr(ou), _asarr(os_), True, set(), p, promo, narrow) is None for (p, q, ou), (_, _, os_) in zip(ul, sl)):
+                    rec.note("numpy-subclass-path-differs:" + t.func_name)
+                    rec.count("excused:numpy-subclass-path")
+                    d = None
+            except Exception:
+                pass
+        if d is None:
+            rec.ok(cellfn(fam))
+            if fam == "plain" and sample is not None:
+                rec.sample(sample, limit=2)
+            out[fam] = "ok"
+            continue
+        kind, p, detail = d
+        fail = (where, kind)
+        if fam == "plain":
+            plain_failed = fail
+        key = keyfn(not (fam.startswith("plain") or plain_failed == fail), fam, where, kind)
+        out[fam] = (where, kind, key)
+        rec.violation(key, f"{case['template']} [{case['shape']},{case['dtype']},{fam}{case.get('variant', '')}] {where} at {p}: {detail}",
+                      dict(case, family=fam, where=where, path=p, detail=detail))
+    return out
+
+
+def _asarr(o):
+    try:
+        return np.asarray(o)
+    except ValueError:          # a list-spelled operand that the call made ragged
+        return np.asarray(o, dtype=object)
+
+
+def _spelled(wrap, target_q, spelling):
+    """unit assignment that hands one chosen placeholder over bare, spelled as ndarray / nested list / Python scalar"""
+    def w(data, dim, q):
+        if q is target_q:
+            return data if spelling == "nd" else data.tolist() if spelling == "list" else data.item()
+        return wrap(data, dim, q)
+    return w
+
+
+def _narrow_of(dt, bl):
+    if np.dtype(dt).kind in "fc" and _eps_of(np.dtype(dt)) > 1e-10:
+        mags = [float(np.max(np.abs(q.data))) for _, q, _ in bl if q.data.size and q.data.dtype.kind in "fciu"]
+        return (_eps_of(np.dtype(dt)), max(mags + [1.0]))
+    return None
+
+
 def worker(batch, rec):
     import unyt
     from unyt import unyt_array
@@ -195,11 +314,8 @@ def worker(batch, rec):
     tier, seed = payload["tier"], payload["seed"]
     warnings.simplefilter("ignore")
     np.seterr(all="ignore")
-    bt = nc.by_tid()
     quick = tier == "quick"
     families = FAMILIES_QUICK if quick else FAMILIES_THOROUGH
-    dtypes = nc.DTYPES_QUICK + ("f4",) if quick else nc.DTYPES_THOROUGH + ("c8",)
-    draws = [("int", 0), ("frac", 1), ("gen", 2)] if quick else [(("int", "frac", "gen")[i % 3], i) for i in range(24)]
     wraps = {name: nc.unit_wrapper(unyt, assign, zero_d="array" if name.endswith("0d-array") else "quantity") for name, assign in families}
 
     seen = {}
@@ -209,7 +325,20 @@ def worker(batch, rec):
         seen[func] = seen.get(func, 0) + 1
         return orig(self, func, types, args, kwargs)
     unyt_array.__array_function__ = tap
+    try:
+        if payload.get("boundary"):
+            _boundary(payload, rec, quick, seed, wraps, seen)
+        else:
+            _catalogue(payload, rec, quick, seed, wraps, seen)
+    finally:
+        unyt_array.__array_function__ = orig
+    rec.count("array_function_dispatches", sum(seen.values()))
 
+
+def _catalogue(payload, rec, quick, seed, wraps, seen):
+    bt = nc.by_tid()
+    dtypes = nc.DTYPES_QUICK + ("f4",) if quick else nc.DTYPES_THOROUGH + ("c8",)
+    draws = [("int", 0), ("frac", 1), ("gen", 2)] if quick else [(("int", "frac", "gen")[i % 3], i) for i in range(24)]
     for tid in payload["tids"]:
         t = bt[tid]
         strict_text = "file" in t.tags
@@ -238,78 +367,144 @@ def worker(batch, rec):
                     if not any(not q.bare for _, q, _ in bl):
                         rec.count("discarded:no-unit-operand")
                         continue
-                    plain_failed = None
-                    narrow = None
-                    if np.dtype(dt).kind in "fc" and _eps_of(np.dtype(dt)) > 1e-10:
-                        mags = [float(np.max(np.abs(q.data))) for _, q, _ in bl if q.data.size and q.data.dtype.kind in "fciu"]
-                        narrow = (_eps_of(np.dtype(dt)), max(mags + [1.0]))
-                    for fam, wrap in wraps.items():
-                        ua, uk, ul = call.realize(wrap, layout)
-                        n0 = seen.get(t.target, 0) if t.kind == "function" else 0
-                        try:
-                            ru = t.observe(ua, uk, t.invoke(ua, uk))
-                        except Exception as e:
-                            rec.ok(None)
-                            rec.count("refused")
-                            rec.count("refused:" + ("unsupported" if "unsupported" in t.tags else type(e).__name__))
-                            rec.reach("ref:" + t.func_name)
-                            continue
-                        if t.kind == "function":
-                            if seen.get(t.target, 0) > n0:
-                                rec.count("dispatched-through-__array_function__")
-                                rec.reach("dsp:" + t.func_name)
-                            else:
-                                rec.count("not-dispatched")
-                        notes = set()
-                        promo = bool(t.tags & {"out", "mutator", "mixed-bare"})
-                        d = compare(ru, rb, strict_text, notes, promo_ok=promo, narrow=narrow)
-                        where = "result"
-                        if d is None:
-                            for (p, q, ou), (_, _, ob) in zip(ul, bl):
-                                is_out = q.role == "out"
-                                rec.count("out-buffer-compared" if is_out else "operand-after-call-compared")
-                                d = compare(np.asarray(ou), ob, True, notes, p, promo, narrow)
-                                if d:
-                                    where = "out-buffer" if is_out else "operand-after-call"
-                                    break
-                        rec.count("compared:" + t.kind)
-                        rec.count("compared:layout-" + layout)
-                        if "mutator" in t.tags:
-                            rec.count("compared:mutator-templates")
-                        for nt in notes:
-                            rec.note(nt)
-                        rec.reach("cmp:" + t.func_name)
-                        if d is not None:
-                            # second reference: NumPy on a unit-less ndarray subclass. NumPy itself takes other code paths for
-                            # subclasses (e.g. nanmin/nanmax skip the fmin.reduce fast path); such a difference is not unyt's.
+                    narrow = _narrow_of(dt, bl)
+                    promo = bool(t.tags & {"out", "mutator", "mixed-bare"})
+                    opt = _optional_names(t, call)
+                    case = {"template": tid, "shape": shape, "dtype": dt, "args": call.args, "kwargs": call.kwargs}
+                    main = _judge(rec, t, lambda wrap: call.realize(wrap, layout), rb, bl, wraps, seen, strict_text, promo, narrow,
+                           lambda famspec, fam, where, kind: (f"C06:{t.func_name}:{where}-{kind}:{fam}" if famspec else f"C06:{t.func_name}({opt}):{where}-{kind}"),
+                           lambda fam: (tid, shape, dt, fam), layout, case,
+                           sample={"template": tid, "shape": shape, "dtype": dt, "numpy": rb if _is_small(rb) else str(type(rb))})
+
+                    # ---- dimension "one operand bare in ANY call form": the catalogue's own bare#k forms exist for the base form
+                    # only and spell the bare operand as an ndarray; here every form (keyword / positional / custom) with at least
+                    # two unit-carrying operands is re-run with one drawn operand bare, spelled as ndarray, nested list or scalar
+                    if "mixed-bare" in t.tags or t.func_name in NO_BARE_FORM:
+                        continue
+                    cand = [(i, q) for i, (_, q, _) in enumerate(bl) if not q.bare and q.role != "out"]
+                    if len(cand) < 2:
+                        continue
+                    k, tq = cand[g.rng.randrange(len(cand))]
+                    spelling = g.rng.choice(("nd", "scalar", "scalar") if tq.data.ndim == 0 else ("nd", "list", "list"))
+                    if t.kind != "function" and k == cand[0][0]:
+                        spelling = "nd"          # the receiver of an ndarray method/operator has to be an ndarray
+                    try:
+                        ba2, bk2, bl2 = call.realize(_spelled(nc.bare_wrap, tq, spelling), layout)
+                        rb2 = t.observe(ba2, bk2, t.invoke(ba2, bk2))
+                    except Exception:
+                        rec.count("anyform-bare:discarded:numpy-refuses")
+                        continue
+
+                    def tally(name, spelling=spelling):
+                        rec.count("anyform-bare:" + name)
+                        rec.count(f"anyform-bare:{name}:{spelling}")
+                    case2 = dict(case, variant=f",bare#{k}:{spelling}")
+
+                    def key2(famspec, fam, where, kind):
+                        m = main.get(fam)
+                        if isinstance(m, tuple) and m[:2] == (where, kind):
+                            return m[2]         # the all-quantity run of this case fails the same way: same mechanism, same key
+                        if famspec and m == "refused":
+                            # only this unit family fails and the all-quantity form is refused there: nothing attributes the failure to
+                            # the bare operand, so the mechanism is the family (as for the catalogue's own forms, e.g. gradient on degC)
+                            return f"C06:{t.func_name}:{where}-{kind}:{fam}"
+                        return (f"C06:{t.func_name}:{where}-{kind}:{fam}:bare#{k}:{spelling}" if famspec
+                                else f"C06:{t.func_name}({opt}~bare#{k}:{spelling}):{where}-{kind}")
+                    _judge(rec, t, lambda wrap: call.realize(_spelled(wrap, tq, spelling), layout), rb2, bl2, wraps, seen, strict_text, True, narrow, key2,
+                           lambda fam: (tid, shape, dt, fam, f"bare#{k}:{spelling}"), layout, case2, tally=tally)
+
+
+_OPCLASS = {"Q": "Q", "nd": "bare-ndarray", "list": "bare-list", "scalar": "bare-scalar"}
+
+
+def _boundary(payload, rec, quick, seed, wraps, seen):
+    """the two-operand decision-boundary family (vf/gen/c06_boundary.py): data and parameters at the decision boundary of the
+    function x both operand orders x operand kind per position"""
+    bt = cb.by_tid()
+    dtypes = nc.DTYPES_QUICK if quick else nc.DTYPES_THOROUGH
+    draws = [("int", 0), ("gen", 1)] if quick else [(("int", "frac", "gen")[i % 3], i) for i in range(9)]
+    for tid in payload["tids"]:
+        t = bt[tid]
+        for shape in t.shapes:
+            for dt in dtypes:
+                for flavor, rep in draws:
+                    if flavor != "int" and np.dtype(dt).kind not in "fc":
+                        continue
+                    g = cb.BGen(core.rng(seed, tid, shape, dt, rep), dt, shape, flavor)
+                    try:
+                        bc = t.build(g)
+                    except nc.Skip:
+                        continue
+                    except Exception as e:
+                        rec.count("discarded:builder-error")
+                        rec.note(f"builder-error:{tid}:{type(e).__name__}")
+                        continue
+                    layout = g.rng.choice(LAYOUT_DRAW)
+                    numpy_qq = {}
+                    for order in cb.ORDERS:
+                        qq_fail = {}
+                        for kinds in cb.KINDS:
                             try:
-                                sa, sk, sl = call.realize(lambda data, dim, q: data.view(_PlainSub), layout)
-                                rs = t.observe(sa, sk, t.invoke(sa, sk))
-                                if compare(ru, rs, strict_text, set(), promo_ok=promo, narrow=narrow) is None and all(
-                                        compare(np.asarray(ou), np.asarray(os_), True, set(), p, promo, narrow) is None for (p, q, ou), (_, _, os_) in zip(ul, sl)):
-                                    rec.note("numpy-subclass-path-differs:" + t.func_name)
-                                    rec.count("excused:numpy-subclass-path")
-                                    d = None
+                                call = bc.variant(order, kinds)
+                                ba, bk, bl = call.realize(nc.bare_wrap, layout)
+                                rb = t.observe(ba, bk, t.invoke(ba, bk))
+                            except nc.Skip:
+                                continue
                             except Exception:
-                                pass
-                        if d is None:
-                            rec.ok((tid, shape, dt, fam))
-                            if fam == "plain":
-                                rec.sample({"template": tid, "shape": shape, "dtype": dt, "numpy": rb if _is_small(rb) else str(type(rb))}, limit=2)
-                            continue
-                        kind, p, detail = d
-                        fail = (where, kind)
-                        if fam == "plain":
-                            plain_failed = fail
-                        if fam.startswith("plain") or plain_failed == fail:
-                            key = f"C06:{t.func_name}({_optional_names(t, call)}):{where}-{kind}"
-                        else:       # fails only with this unit family: the mechanism is the family, not the argument form
-                            key = f"C06:{t.func_name}:{where}-{kind}:{fam}"
-                        rec.violation(key, f"{tid} [{shape},{dt},{fam}] {where} at {p}: {detail}",
-                                      {"template": tid, "shape": shape, "dtype": dt, "family": fam, "args": call.args, "kwargs": call.kwargs,
-                                       "where": where, "path": p, "detail": detail})
-    unyt_array.__array_function__ = orig
-    rec.count("array_function_dispatches", sum(seen.values()))
+                                rec.count("discarded:numpy-refuses")
+                                rec.count("boundary:discarded:numpy-refuses")
+                                continue
+                            rec.reach("valid:" + t.func_name)
+                            if kinds == ("Q", "Q"):
+                                numpy_qq[order] = rb
+                                if order == "xy" and cb.public_kwargs(bc.kwargs):
+                                    # does the answer depend on the optional parameters? (NumPy alone, on the bare data)
+                                    try:
+                                        c0 = bc.variant(order, kinds, params=False)
+                                        a0, k0, _ = c0.realize(nc.bare_wrap, layout)
+                                        r0 = t.observe(a0, k0, t.invoke(a0, k0))
+                                        rec.count("boundary:parameter-sensitivity-probed")
+                                        if compare(r0, rb, True, set()) is not None:
+                                            rec.count("boundary:parameter-sensitive")
+                                            rec.count("boundary:parameter-sensitive:" + t.cls)
+                                    except Exception:
+                                        pass
+                            pat = ",".join(_OPCLASS[k] for k in kinds)
+                            posn = "two-quantities" if kinds == ("Q", "Q") else "bare-first" if kinds[0] != "Q" else "bare-second"
+                            spell = [k for k in kinds if k != "Q"]
+
+                            def tally(name, posn=posn, spell=spell, order=order, cls=t.cls):
+                                rec.count(f"boundary:{name}")
+                                rec.count(f"boundary:{name}:{posn}")
+                                rec.count(f"boundary:{name}:order-{order}")
+                                rec.count(f"boundary:{name}:class-{cls}")
+                                if spell:
+                                    rec.count(f"boundary:{name}:spelled-{spell[0]}")
+                            narrow = _narrow_of(dt, bl)
+                            promo = kinds != ("Q", "Q")
+                            opt = _optional_names(t, call)
+                            case = {"template": tid, "shape": shape, "dtype": dt, "args": call.args, "kwargs": call.kwargs, "order": order, "operands": pat,
+                                    "variant": f",{order},{pat}"}
+
+                            def keyfn(famspec, fam, where, kind, kinds=kinds, pat=pat, opt=opt, qq_fail=qq_fail):
+                                m = qq_fail.get(fam)
+                                if kinds != ("Q", "Q") and isinstance(m, tuple) and m[:2] == (where, kind):
+                                    return m[2]              # two quantities in the same order fail the same way: same mechanism, same key
+                                base = f"C06:{t.func_name}:{where}-{kind}:{fam}" if famspec else f"C06:{t.func_name}({opt}):{where}-{kind}"
+                                if kinds != ("Q", "Q") and not (famspec and m == "refused"):
+                                    base += ":" + pat        # fails only with this operand pattern: the mechanism is the bare operand
+                                return base
+                            res = _judge(rec, t, lambda wrap: call.realize(wrap, layout), rb, bl, wraps, seen, False, promo, narrow, keyfn,
+                                         lambda fam: (tid, shape, dt, fam, order, pat), layout, case, tally=tally)
+                            if kinds == ("Q", "Q"):
+                                qq_fail = dict(res)
+                    if len(numpy_qq) == 2:
+                        rec.count("boundary:order-sensitivity-probed")
+                        rec.count("boundary:order-sensitivity-probed:" + t.cls)
+                        if compare(numpy_qq["xy"], numpy_qq["yx"], True, set()) is not None:
+                            rec.count("boundary:order-sensitive")
+                            rec.count("boundary:order-sensitive:" + t.cls)
+                            rec.reach("osens:" + tid)
 
 
 class _PlainSub(np.ndarray):
@@ -343,16 +538,42 @@ def extra(tier, seed, results):
                 "out= buffer comparisons": counters.get("out-buffer-compared", 0),
                 "operand-after-call comparisons": counters.get("operand-after-call-compared", 0),
                 "mutator template comparisons": counters.get("compared:mutator-templates", 0),
-                "calls seen by the __array_function__ tap": counters.get("dispatched-through-__array_function__", 0)}
+                "calls seen by the __array_function__ tap": counters.get("dispatched-through-__array_function__", 0),
+                # dimension: one operand bare in any call form (keyword/positional/custom), spelled ndarray / list / scalar
+                "any-form one-operand-bare comparisons": counters.get("anyform-bare:compared", 0),
+                "any-form one-operand-bare comparisons, bare operand spelled as list": counters.get("anyform-bare:compared:list", 0),
+                # dimension: two-operand decision-boundary family (operand order x operand kind per position x sensitive parameters)
+                "boundary: two-quantity comparisons": counters.get("boundary:compared:two-quantities", 0),
+                "boundary: bare-first comparisons": counters.get("boundary:compared:bare-first", 0),
+                "boundary: bare-second comparisons": counters.get("boundary:compared:bare-second", 0),
+                "boundary: comparisons in swapped operand order": counters.get("boundary:compared:order-yx", 0),
+                "boundary: bare operand spelled as ndarray": counters.get("boundary:compared:spelled-nd", 0),
+                "boundary: bare operand spelled as list": counters.get("boundary:compared:spelled-list", 0),
+                "boundary: bare operand spelled as scalar": counters.get("boundary:compared:spelled-scalar", 0),
+                "boundary: cases whose NumPy answer changes when the operands are swapped": counters.get("boundary:order-sensitive", 0),
+                "boundary: cases whose NumPy answer changes when the optional parameters are left out": counters.get("boundary:parameter-sensitive", 0)}
+    classes = {c: {"compared": counters.get("boundary:compared:class-" + c, 0), "refused": counters.get("boundary:refused:class-" + c, 0),
+                   "order_probed": counters.get("boundary:order-sensitivity-probed:" + c, 0), "order_sensitive": counters.get("boundary:order-sensitive:" + c, 0),
+                   "parameter_sensitive": counters.get("boundary:parameter-sensitive:" + c, 0), "must_be_order_sensitive": asym} for c, asym in cb.CLASSES.items()}
+    btids = [t.tid for t in cb.templates()]
+    bfuncs = sorted({t.func_name for t in cb.templates()})
     ok_batches = [r for _, r in results if r.get("status") == "ok"]
     if ok_batches and len(ok_batches) == len(results):
         for name, v in deciding.items():
             if v == 0:
                 raise core.Inconclusive(f"sub-monitor-saw-nothing:{name}")
+        for c, v in classes.items():
+            if v["compared"] == 0:
+                raise core.Inconclusive(f"sub-monitor-saw-nothing:boundary decision class {c}")
+            if v["must_be_order_sensitive"] and v["order_sensitive"] == 0:
+                raise core.Inconclusive(f"boundary decision class {c}: no case whose answer depends on the operand order (data not at the decision boundary)")
         if len(cmp_) < 0.6 * len(funcs):
             raise core.Inconclusive(f"only {len(cmp_)} of {len(funcs)} catalogued functions produced a comparable result")
     return {
         "sub_monitors": deciding,
+        "boundary_family": {"templates": len(btids), "functions_and_methods": len(bfuncs), "decision_classes": classes,
+                            "asymmetric_templates_never_order_sensitive": sorted(t.tid for t in cb.templates() if cb.CLASSES[t.cls] and "osens:" + t.tid not in reached),
+                            "functions_never_compared": sorted(f for f in bfuncs if "cmp:" + f not in reached)},
         "catalogue": {"templates": len(nc.catalog()), "functions_and_methods": len(funcs), "wrappable_numpy_functions": len(wrappable),
                       "functions_compared": len(cmp_), "wrappable_dispatched_through_unyt": len(disp & set(wrappable))},
         "unreached": {"wrappable_without_template": nc.without_template(),
